@@ -121,13 +121,35 @@ impl GenerationPass for AvailableValuePass {
         // the values with the correct previous nodes are calculated.
         #[allow(clippy::mutable_key_type)]
         let mut visited = HashSet::new();
+        // Set when a sweep changed nothing but left nodes unvisited (code that
+        // only unreachable code leads to): the first of them is then computed
+        // from empty values, so that every node is computed in every run.
+        let mut force_unvisited = false;
         while changed {
             changed = false;
+            let mut waiting = false;
             #[cfg(rajanmaghera_riscv_analysis_verif)]
             crate::verif_hooks::sweep(crate::verif_hooks::Pass::Available);
             for node in cfg.iter() {
                 #[cfg(rajanmaghera_riscv_analysis_verif)]
                 crate::verif_hooks::visit();
+                // A node whose predecessors have all not been visited yet (the
+                // body of a loop that is entered by a jump to its test, for
+                // example) has no incoming values so far. Computing it from
+                // empty values would poison the join with its predecessors in
+                // later sweeps, so wait until one of them has been visited.
+                if !visited.contains(&node)
+                    && !node.prevs().is_empty()
+                    && !node.prevs().iter().any(|x| visited.contains(x))
+                {
+                    if force_unvisited {
+                        force_unvisited = false;
+                    } else {
+                        waiting = true;
+                        continue;
+                    }
+                }
+
                 // in[n] = AND out[p] for all p in prev[n]
                 let in_reg_n = node
                     .prevs()
@@ -235,8 +257,13 @@ impl GenerationPass for AvailableValuePass {
                 changed |= node.set_reg_values_out(out_reg_n);
                 changed |= node.set_memory_values_out(out_memory_n);
 
-                // Add node to visited
-                visited.insert(Rc::clone(&node));
+                // Add node to visited. Reaching a node for the first time in
+                // this run is progress even if its values were already right.
+                changed |= visited.insert(Rc::clone(&node));
+            }
+            if !changed && waiting {
+                force_unvisited = true;
+                changed = true;
             }
         }
         Ok(())
